@@ -874,7 +874,8 @@ def check_number(case):
     if case["as_number"]:
         v = float(res.v)
         got = parse_number(v)
-        if got != v or isinstance(got, complex):
+        # the number goes through str() and sympy's 15-digit Float: equal to round-off, not bitwise
+        if isinstance(got, complex) or abs(got - v) > 4 * G.EPS * abs(v):
             raise Violation(f"parse_number({v!r}) returned {got!r}", key="number:passthrough")
         return {"nt": False, "labels": ["number-passthrough"]}
     text, alts = G.render_info(ast, case["shape_seed"])
